@@ -599,7 +599,7 @@ func (c Constant) String() string {
 		}
 		var s strings.Builder
 		s.WriteRune('[')
-		s.WriteString((*c.fst).String())
+		writeAfterBracket(&s, (*c.fst).String())
 		c = *c.snd
 		for !c.IsListNil() {
 			s.WriteString(", ")
@@ -614,7 +614,7 @@ func (c Constant) String() string {
 		}
 		var s strings.Builder
 		s.WriteRune('[')
-		s.WriteString((*c.fst.fst).String())
+		writeAfterBracket(&s, (*c.fst.fst).String())
 		s.WriteString(" : ")
 		s.WriteString((*c.fst.snd).String())
 		c = *c.snd
@@ -651,6 +651,16 @@ func (c Constant) String() string {
 	default:
 		return "?" // cannot happen
 	}
+}
+
+// writeAfterBracket writes the text of the first element of a list or map, right
+// after the opening bracket. "[-" and "[+" are tokens of their own (temporal
+// operators), so an element text that starts with a sign is set off by a space.
+func writeAfterBracket(s *strings.Builder, elem string) {
+	if strings.HasPrefix(elem, "-") || strings.HasPrefix(elem, "+") {
+		s.WriteRune(' ')
+	}
+	s.WriteString(elem)
 }
 
 // DisplayString returns a string representation of the constant without escaping Unicode characters.
